@@ -128,16 +128,20 @@ def klex_select(kinds, defs, quick_cost=40, quick_per_def=5, thorough_cost=300, 
             if tier == 'thorough':
                 out += [h for c, h in cand if c <= thorough_cost]
             else:
-                # quick: per definition, the cheapest harness of each kind first, then by cost, within the budget
+                # quick: distinct inputs first - the cover-carrying twins (specc_/ctxc_/skelc_) repeat the input of their
+                # plain variant and are only added by the cover rule below; attempts from the start of the context before
+                # attempts from inside it; then by cost
+                plain = [(idx[h].get('s', 0), c, h) for c, h in cand if c <= quick_cost and not idx[h]['kind'].endswith('c')]
+                plain.sort()
                 picked = []
                 for k in kinds:
-                    for c, h in cand:
-                        if idx[h]['kind'] == k and c <= quick_cost and h not in picked:
+                    for s_, c, h in plain:
+                        if idx[h]['kind'] == k and h not in picked:
                             picked.append(h); break
-                for c, h in cand:
+                for s_, c, h in plain:
                     if len(picked) >= quick_per_def: break
-                    if c <= quick_cost and h not in picked: picked.append(h)
-                out += picked[:max(quick_per_def, len(kinds))]
+                    if h not in picked: picked.append(h)
+                out += picked
         # vacuity: for every required cover label schedule the cheapest harness known to satisfy it
         cm = _cover_map(config)
         for label in covers:
@@ -273,7 +277,7 @@ PLAN = {
     'C06': dict(
         level='model_checking', engine='kani',
         kani=klex_suite('K-lex both code generators', SPEC_KINDS, ['B1', 'B2', 'B4', 'B5', 'E1', 'S2', 'S3', 'K1', 'U1'],
-                        covers=['token produced', 'error produced'], configs=((), ('state_machine_codegen',)),
+                        covers=['token produced', 'error produced'], configs=((), ('state_machine_codegen',)), quick_per_def=9, quick_cost=25,
                         bounded=BOUND_NOTE % 'B1, B2, B4, B5, E1, S2, K1, U1 under the tail-call and the state-machine generator'),
         technique='bounded model checking (Kani/CBMC): the same harnesses against one deterministic specification under both code generators',
         level_text='Both generated lexers are compared with the same specification (results, spans, callback invocation count and observed spans), so they agree on all explored inputs. Bounded.',
